@@ -18,6 +18,7 @@ import (
 	"io"
 	"math/big"
 	"sort"
+	"strings"
 	"sync"
 	"time"
 
@@ -94,6 +95,49 @@ type c30Store struct {
 	writes  int64
 	crashAt int64 // <0: never
 	lost    int64
+	// transient write errors: the nth write (counted while failOn) whose key has
+	// the prefix fails with an error and is not applied
+	failOn  bool
+	fails   []*c30WriteFail
+	failed  []string // keys whose write failed
+}
+
+type c30WriteFail struct {
+	prefix string
+	nth    int64
+	seen   int64
+	fired  bool
+}
+
+var c30ErrWrite = errors.New("state store: write failed (injected)")
+
+// c30Raw is stored byte for byte (the mock store asks BinaryMarshaler first).
+type c30Raw []byte
+
+func (r c30Raw) MarshalBinary() ([]byte, error) { return []byte(r), nil }
+
+// snapshot returns a copy of everything in the store ("backup").
+func (s *c30Store) snapshot() map[string][]byte {
+	out := map[string][]byte{}
+	_ = s.inner.Iterate("", func(k, v []byte) (bool, error) {
+		out[string(k)] = append([]byte(nil), v...)
+		return false, nil
+	})
+	return out
+}
+
+// restore replaces the content of the store by a snapshot ("restore from backup").
+func (s *c30Store) restore(snap map[string][]byte) {
+	inner := statemock.NewStateStore()
+	keys := make([]string, 0, len(snap))
+	for k := range snap {
+		keys = append(keys, k)
+	}
+	sort.Strings(keys)
+	for _, k := range keys {
+		_ = inner.Put(k, c30Raw(snap[k]))
+	}
+	s.inner = inner
 }
 
 func c30NewStore(r *gosim.Run) *c30Store {
@@ -110,7 +154,25 @@ func (s *c30Store) Put(key string, i interface{}) error {
 	if crashed {
 		s.lost++
 	}
+	fail := false
+	if s.failOn && !crashed {
+		for _, f := range s.fails {
+			if f.fired || !strings.HasPrefix(key, f.prefix) {
+				continue
+			}
+			if f.seen == f.nth {
+				f.fired = true
+				fail = true
+				s.failed = append(s.failed, key)
+			}
+			f.seen++
+		}
+	}
 	s.mu.Unlock()
+	if fail {
+		s.r.Count("fault_store_write_error")
+		return c30ErrWrite
+	}
 	if crashed {
 		s.r.Count("fault_store_write_lost")
 		return nil
